@@ -12,19 +12,19 @@ namespace Pfl
 namespace IG
 variable {σ : Type} [DecidableEq σ]
 
-/-- name hygiene assumed by the construction (all satisfied by grammars whose non-terminals are
-plain identifiers other than "T", whose terminals are not non-terminals, and transducer states
-printed without quotes, commas or parentheses) -/
+/-- name hygiene assumed by the construction (satisfied whenever grammar symbols are plain
+identifiers and transducer states are printed without quotes, commas or parentheses); since the
+repair that names terminal triples apart, terminals may be spelled like non-terminals -/
 structure InterOK (T : FST σ) (rs : σ → String) (G : IG) : Prop where
   start : G.start = "S"
   wf : T.WF
   tripleInj : ∀ p x q p' x' q', p ∈ T.states → q ∈ T.states → p' ∈ T.states → q' ∈ T.states →
     tripleStr rs p x q = tripleStr rs p' x' q' → p = p' ∧ x = x' ∧ q = q'
-  tripleNotS : ∀ p x q, tripleStr rs p x q ≠ "S"
-  tripleNotT : ∀ p x q, tripleStr rs p x q ≠ "T"
-  ntNotT : "T" ∉ G.nonTerminals
-  /-- terminals, index symbols and "epsilon" are not non-terminals of the grammar -/
-  disj : ∀ x ∈ "epsilon" :: G.ruleTerminals, x ∉ G.nonTerminals
+  terTripleInj : ∀ p x q p' x' q', p ∈ T.states → q ∈ T.states → p' ∈ T.states → q' ∈ T.states →
+    terTripleStr rs p x q = terTripleStr rs p' x' q' → p = p' ∧ x = x' ∧ q = q'
+  tripleNeTer : ∀ p x q p' x' q', tripleStr rs p x q ≠ terTripleStr rs p' x' q'
+  tripleNotS : ∀ p x q, tripleStr rs p x q ≠ "S" ∧ terTripleStr rs p x q ≠ "S"
+  tripleNotT : ∀ p x q, tripleStr rs p x q ≠ "T" ∧ terTripleStr rs p x q ≠ "T"
   /-- "epsilon" is not an input symbol of the transducer -/
   inNotEps : ∀ t ∈ T.delta, t.2.1 ≠ some "epsilon"
 
@@ -35,7 +35,20 @@ theorem inter_nonEmpty (T : FST σ) (rs : σ → String) (G : IG) (h : InterOK T
 /-- words and plain derivability agree -/
 theorem derivable_iff_gen (G : IG) (a : String) (st : List String) :
     G.Derivable a st ↔ ∃ w, G.Gen a st w := by
-  sorry
+  constructor
+  · intro h
+    induction h with
+    | end_ hr => exact ⟨_, Gen.end_ hr⟩
+    | prod hr _ ih => obtain ⟨w, hw⟩ := ih; exact ⟨w, Gen.prod hr hw⟩
+    | cons hr _ ih => obtain ⟨w, hw⟩ := ih; exact ⟨w, Gen.cons hr hw⟩
+    | dup hr _ _ ih1 ih2 =>
+      obtain ⟨u, hu⟩ := ih1; obtain ⟨v, hv⟩ := ih2; exact ⟨u ++ v, Gen.dup hr hu hv⟩
+  · rintro ⟨w, h⟩
+    induction h with
+    | end_ hr => exact Derivable.end_ hr
+    | prod hr _ ih => exact Derivable.prod hr ih
+    | cons hr _ ih => exact Derivable.cons hr ih
+    | dup hr _ _ ih1 ih2 => exact Derivable.dup hr ih1 ih2
 
 end IG
 end Pfl
